@@ -84,7 +84,6 @@ Item(b) == [n |-> Len(b), big |-> FALSE, b |-> b, h |-> "-"]
 Same(x, y) == /\ x.n = y.n
               /\ x.h = y.h
               /\ (~x.big /\ ~y.big) => x.b = y.b
-ItemSane(x) == x.big \/ x.n = Len(x.b)
 
 Names(r) == {r.secs[i].name : i \in 1..Len(r.secs)}
 Sec(r, nm) == r.secs[CHOOSE i \in 1..Len(r.secs) : r.secs[i].name = nm]
@@ -99,11 +98,11 @@ HTDiagnosis(full, hdr, txt, harnessDiag) ==
          THEN "header-from-inside"
     ELSE "header-not-the-start"
 
-(* The verdict: the set of <<clause, where>> that record r violates (where:  *)
-(* the index of the section in r.secs, or of the source's section for COPY, *)
-(* as a string; a diagnosis; the way of storing; kept short because TLC      *)
-(* wraps printed tuples at 80 columns).  src is                              *)
-(* the record of the message r was copied from (only read when r.how="copy").*)
+(* The verdict: the set of <<clause, where>> that record r violates.  where  *)
+(* is the index of the section in r.secs (of the source's section for COPY) *)
+(* as a string, an item name, a diagnosis, or the way of storing; it is kept *)
+(* short because TLC wraps printed tuples at 80 columns.  src is the record  *)
+(* of the message r was copied from (only read when r.how = "copy").         *)
 Bad(r, src) ==
     LET full == Sec(r, "").a
         hdr  == Sec(r, "HEADER").a
@@ -146,7 +145,9 @@ Bad(r, src) ==
      ELSE {})
     \cup
     (IF r.how \in {"append", "deliver"} /\ r.wellformed /\ ~SameFields(r.sentFields, r.fields)
-     THEN {<<"C16.SameHeaderFields", r.how>>} ELSE {})
+     THEN {<<"C16.SameHeaderFields",       \* diagnosis: do the values differ in white space only?
+             r.how \o (IF SameFields(r.sentFieldsNoWS, r.fieldsNoWS) THEN ":white-space" ELSE ":value")>>}
+     ELSE {})
     \cup
     (IF r.how \in {"append", "deliver"} /\ r.wellformed /\
         \/ r.opaque /\ ~r.sent.big /\ ~txt.big /\ ~SameBodyContent(r.sent.b, txt.b)
@@ -173,6 +174,7 @@ RefRfc(s) == [ok |-> TRUE, size |-> Len(RefFull(s)), full |-> Item(RefFull(s)),
 (* R: the partial ranges <<o, c>> to include *)
 RefRecord(s, how, R) ==
     [how |-> how, wellformed |-> TRUE, opaque |-> TRUE, sent |-> Item(s), sentFields |-> <<>>, fields |-> <<>>,
+     sentFieldsNoWS |-> <<>>, fieldsNoWS |-> <<>>,
      sentLeaves |-> <<[ct |-> "text/plain", body |-> Item(ToCRLF(BodyOf(DeCR(s))))]>>,
      leaves |-> <<[ct |-> "text/plain", body |-> Item(RefText(s))]>>,
      secs |-> <<RefSec("", RefFull(s), R), RefSec("HEADER", RefHeader(s), R), RefSec("TEXT", RefText(s), R)>>,
